@@ -115,7 +115,8 @@ func (in *InExpr) Eval(input []reflect.Value, isVariadic bool) (bool, error) {
 outer:
 	for _, one := range in.expressions {
 		if len(input) != len(one) {
-			return false, nil
+			// an alternative of another length cannot match; later ones still can
+			continue
 		}
 		for i, param := range one {
 			v, err := param.Eval([]reflect.Value{input[i]}, isVariadic)
